@@ -156,14 +156,14 @@ pub fn exec(case: &[i64]) -> Outcome {
 
 fn case12(kind: i64, set: &[u32]) -> Vec<i64> {
   let mut s = set.to_vec(); s.sort(); s.dedup();
-  let mut c = vec![kind]; c.push(s.len() as i64); c.extend(s.iter().map(|x| *x as i64)); put_bytes(&mut c, &zcomp(&rser(&s))); c
+  let mut c = vec![kind]; c.push(s.len() as i64); c.extend(s.iter().map(|x| *x as i64)); let rb = rser(&s); put_bytes(&mut c, &rb); put_bytes(&mut c, &zcomp(&rb)); c
 }
 fn case3(type_ok: bool, eptag: i64, text: &str) -> Vec<i64> { case3t(type_ok as i64, eptag, text) }
 fn case3t(tcode: i64, eptag: i64, text: &str) -> Vec<i64> {
   let mut c = vec![3, tcode, eptag]; put_bytes(&mut c, text.as_bytes());
   let cands = text.strip_prefix(PREFIX).map(candidates).unwrap_or_default();
   c.push(cands.len() as i64);
-  for z in cands { put_bytes(&mut c, &z); match unz(&z) { Some(s) if s.windows(2).all(|w| w[0] < w[1]) => { c.push(1); c.push(s.len() as i64); c.extend(s.iter().map(|x| *x as i64)); } Some(_) => { c.extend([1, 1, NONCANON]); } None => { c.push(0); c.push(0); } } }
+  for z in cands { put_bytes(&mut c, &z); match zdecomp(&z) { Some(b) => { c.push(1); put_bytes(&mut c, &b); } None => { c.push(0); c.push(0); } } }
   c
 }
 type Svc = (i64, i64, bool, Option<Vec<u32>>);
@@ -184,7 +184,7 @@ fn case4(svcs: &[Svc], ops: &[Op]) -> Vec<i64> {
     if let Some(t) = svcs.iter().position(|(d, f, _, _)| qd.map_or(true, |x| x == *d) && *qf == Some(*f)) { let _ = t; }
   }
   c.push(sets.len() as i64);
-  for s in &sets { c.push(s.len() as i64); c.extend(s.iter().map(|x| *x as i64)); put_bytes(&mut c, &zcomp(&rser(s))); }
+  for s in &sets { let rb = rser(s); put_bytes(&mut c, &rb); put_bytes(&mut c, &zcomp(&rb)); }
   c
 }
 
@@ -209,6 +209,8 @@ pub fn gen(rng: &mut Rng, thorough: bool, sink: &mut Sink) {
   sink.case(case3(true, 1, &format!("{PREFIX}{}", BaseEncoding::encode(&rser(&[1, 2, 3]), Base::Base64Url))), "endpoint-uncompressed");
   sink.case(case3(true, 1, &format!("{PREFIX}{}", BaseEncoding::encode(BaseEncoding::encode(&zcomp(&rser(&[7])), Base::Base64Url).as_bytes(), Base::Base64))), "endpoint-legacy");
   sink.case(case3(true, 1, &format!("{PREFIX}{}", BaseEncoding::encode(b"\xff\xfe not utf8", Base::Base64))), "endpoint-legacy-not-utf8");
+  // well-framed roaring payloads whose containers contradict their headers, run containers included (the writer never emits those)
+  for b in crate::c05::roaring_payloads() { sink.case(case3(true, 1, &format!("{PREFIX}{}", BaseEncoding::encode(&zcomp(&b), Base::Base64Url))), "endpoint-roaring-containers"); }
   for _ in 0..(if thorough { 400 } else { 80 }) { let mut b = good.clone().into_bytes(); let k = rng.range(PREFIX.len() as i64, b.len() as i64 - 1) as usize; b[k] = *rng.pick(b"ABCxyz019-_+/=!"); sink.case(case3(true, 1, &String::from_utf8(b).unwrap()), "endpoint-char-flip"); }
   // (4) histories of revoke / unrevoke batches through the document
   let pool: [u32; 12] = [0, 1, 2, 3, 7, 8, 65535, 65536, 65537, 131072, 4_000_000_000, u32::MAX];
